@@ -199,6 +199,12 @@ func (s *MultiEventSyncer) handlePotentialReorg(ctx context.Context, header *typ
 	}
 	numReorgedBlocks := calculateReorgDepth(status, header, s.AssumedReorgDepth)
 	if numReorgedBlocks == 0 {
+		numReorgedBlocks, err = s.calculateReorgDepthAfterGap(ctx, status, header)
+		if err != nil {
+			return err
+		}
+	}
+	if numReorgedBlocks == 0 {
 		return nil
 	}
 
@@ -210,6 +216,28 @@ func (s *MultiEventSyncer) handlePotentialReorg(ctx context.Context, header *typ
 		Hex("current-block-hash", header.Hash().Bytes()).
 		Msg("detected blockchain reorg, rolling back processors")
 	return s.rollback(ctx, toBlock)
+}
+
+// calculateReorgDepthAfterGap covers the case calculateReorgDepth cannot decide: the new head is
+// not the direct child of the synced block (blocks were skipped, or the sync of the direct child
+// failed), so its parent hash says nothing about the synced block. In this case the node is asked
+// whether the synced block is still part of the canonical chain.
+func (s *MultiEventSyncer) calculateReorgDepthAfterGap(ctx context.Context, status *SyncStatus, header *types.Header) (int, error) {
+	if len(status.BlockHash) == 0 || header.Number.Int64() <= status.BlockNumber+1 {
+		return 0, nil
+	}
+	canonical, err := s.ExecutionClient.HeaderByNumber(ctx, big.NewInt(status.BlockNumber))
+	if err != nil {
+		return 0, errors.Wrap(err, "failed to get header of synced block in order to check for a reorg")
+	}
+	if bytes.Equal(canonical.Hash().Bytes(), status.BlockHash) {
+		return 0, nil
+	}
+	depth := s.AssumedReorgDepth
+	if status.BlockNumber < int64(depth) {
+		return int(status.BlockNumber), nil
+	}
+	return depth, nil
 }
 
 func (s *MultiEventSyncer) rollback(ctx context.Context, toBlock int64) error {
